@@ -514,6 +514,78 @@ func runC11(r *Run) {
 	}
 	rt.Done()
 
+	// ---- deadlines and collection times are read from the same clock
+	ck := r.Rule("C11.clock", "the built-in collector hands its callback the reading of a Clock (Now()), and that Clock is the client's own (NewClient passes client.clock to it): deadlines (computed from the client's clock) and collection times are on one time line", 2)
+	{
+		tc := p.Named("tickerCollector")
+		var startFn *ssa.Function
+		if tc != nil {
+			startFn = p.MethodOf(tc, "Start")
+		}
+		if tc == nil || startFn == nil || len(startFn.Params) < 3 {
+			ck.Fail("tickerCollector.Start", "built-in collector not found")
+		} else {
+			r.Analysed(startFn)
+			cb := startFn.Params[2]
+			var clockF *types.Var
+			nCalls := 0
+			fns := append([]*ssa.Function{startFn}, startFn.AnonFuncs...)
+			for _, g := range fns {
+				eachInstr(g, func(b *ssa.BasicBlock, i int, in ssa.Instruction) {
+					c, ok := in.(*ssa.Call)
+					if !ok || c.Call.IsInvoke() || len(c.Call.Args) != 1 {
+						return
+					}
+					// the callback: the parameter itself or the free variable bound to it
+					isCB := c.Call.Value == ssa.Value(cb)
+					if ld, isLd := c.Call.Value.(*ssa.UnOp); isLd {
+						if fv, isFV := ld.X.(*ssa.FreeVar); isFV && fv.Name() == cb.Name() {
+							isCB = true
+						}
+					}
+					if fv, isFV := c.Call.Value.(*ssa.FreeVar); isFV && fv.Name() == cb.Name() {
+						isCB = true
+					}
+					if !isCB {
+						return
+					}
+					nCalls++
+					arg := deref(c.Call.Args[0])
+					okArg := false
+					if nc, isC := arg.(*ssa.Call); isC && nc.Call.IsInvoke() && nc.Call.Method.Name() == "Now" {
+						if _, f := loadedField(nc.Call.Value); f != nil && isNamedType(f.Type(), modulePath, "Clock") {
+							clockF = f
+							okArg = true
+						}
+					}
+					ck.Instance("collector tick", true, map[string]string{"callback_argument": exprDepth(arg, 0)})
+					if !okArg {
+						ck.Violation(g, instrPos(c), "collector passes "+exprDepth(arg, 0), "the collection time is not read from the collector's Clock: with a client Clock other than the wall clock the deadlines and the collection times are on different time lines (timeouts fire early or never)")
+					}
+				})
+			}
+			if nCalls == 0 {
+				ck.Violation(startFn, startFn.Pos(), "collector never calls its callback", "undecided")
+			}
+			// NewClient hands its own clock to the built-in collector
+			if clockF != nil && m.NewClient != nil && m.Clock != nil {
+				okPass := false
+				eachInstr(m.NewClient, func(b *ssa.BasicBlock, i int, in ssa.Instruction) {
+					if s, ok := in.(*ssa.Store); ok {
+						if fa, isFA := s.Addr.(*ssa.FieldAddr); isFA && fieldOfAddr(fa) == clockF && valueIsLoadOfField(deref(s.Val), m.Clock) {
+							okPass = true
+						}
+					}
+				})
+				ck.Instance("NewClient passes its clock", true, nil)
+				if !okPass {
+					ck.Violation(m.NewClient, m.NewClient.Pos(), "collector clock", "the built-in collector is not given the client's Clock")
+				}
+			}
+		}
+	}
+	ck.Done()
+
 	// ---- "repeated only once the clock has passed the deadline": the agent's selection predicate is strict
 	r.Borrow("C13", map[string]string{"C13.collect": "C11.strict"})
 
